@@ -496,4 +496,94 @@ theorem replaceDummy_wf (w : Node) (h : w.wf = true) : (replaceDummy w).wf = tru
   | comment => simp [replaceDummy, docNode, Node.wf, Node.kids, nodupB, wfList]
   | pi t => simp [replaceDummy, docNode, Node.wf, Node.kids, nodupB, wfList]
 
+/-! ### lengths: every child-axis step makes the reference one index longer -/
+
+def Step.isChild : Step → Bool
+  | .attr _ | .ns _ => false
+  | _ => true
+
+def nChild (steps : List Step) : Nat := (steps.filter Step.isChild).length
+
+theorem stepFrom_len (top : Node) (s : Step) (c x : Ref) (hx : x ∈ stepFrom top s c) :
+    x.path.length = c.path.length + (if s.isChild then 1 else 0) := by
+  unfold stepFrom at hx
+  cases hs : c.sel <;> simp only [hs] at hx
+  · cases hd : descend top c.path with
+    | none => simp [hd] at hx
+    | some n =>
+      simp only [hd] at hx
+      cases s <;> simp only [List.mem_map] at hx <;> obtain ⟨i, _, rfl⟩ := hx <;> simp [Step.isChild]
+  all_goals simp at hx
+
+theorem evalFrom_len (top : Node) : ∀ (steps : List Step) (ctx : List Ref) (x : Ref),
+    x ∈ evalFrom top ctx steps → ∃ c ∈ ctx, x.path.length = c.path.length + nChild steps := by
+  intro steps
+  induction steps with
+  | nil => intro ctx x hx; exact ⟨x, hx, by simp [nChild]⟩
+  | cons s rest ih =>
+    intro ctx x hx
+    simp only [evalFrom] at hx
+    obtain ⟨y, hy, hlen⟩ := ih _ x hx
+    obtain ⟨c, hc, hyc⟩ := List.mem_flatMap.1 hy
+    refine ⟨c, hc, ?_⟩
+    rw [hlen, stepFrom_len top s c y hyc]
+    simp only [nChild, List.filter_cons]
+    cases s.isChild <;> simp <;> omega
+
+theorem childStep_isChild (c : Node) (p : Nat) : (childStep c p).isChild = true := by
+  cases c <;> rfl
+
+theorem nChild_pathToWith (cnt : Node → Node → Bool) : ∀ (is : List Nat) (n : Node) (steps : List Step),
+    pathToWith cnt n is = some steps → nChild steps = is.length ∧ steps.length = is.length := by
+  intro is
+  induction is with
+  | nil => intro n steps h; simp only [pathToWith, Option.some.injEq] at h; subst h; simp [nChild]
+  | cons i is ih =>
+    intro n steps h
+    simp only [pathToWith] at h
+    cases hc : n.kids[i]? with
+    | none => simp [hc] at h
+    | some c =>
+      simp only [hc] at h
+      cases hr : pathToWith cnt c is with
+      | none => simp [hr] at h
+      | some rest =>
+        simp only [hr, Option.some.injEq] at h
+        subst h
+        have := ih c rest hr
+        simp only [nChild, List.filter_cons, childStep_isChild, if_true, List.length_cons] at this ⊢
+        omega
+
+theorem nChild_pathOfWith (cnt : Node → Node → Bool) (top : Node) (r : Ref) (steps : List Step)
+    (h : pathOfWith cnt top r = some steps) : nChild steps = r.path.length := by
+  obtain ⟨path, sel⟩ := r
+  unfold pathOfWith at h
+  simp only at h
+  cases hpt : pathToWith cnt top path with
+  | none => simp [hpt] at h
+  | some st =>
+    have hn := (nChild_pathToWith cnt path top st hpt).1
+    cases hd : descend top path with
+    | none => simp [hpt, hd] at h
+    | some n =>
+      simp only [hpt, hd] at h
+      cases sel with
+      | self => simp only [Option.some.injEq] at h; subst h; exact hn
+      | attr j =>
+        cases ha : n.attrs[j]? with
+        | none => simp [ha] at h
+        | some a =>
+          simp only [ha, Option.map_some, Option.some.injEq] at h
+          subst h
+          simp only [nChild, List.filter_append, List.length_append] at hn ⊢
+          simp [Step.isChild, hn]
+      | ns j =>
+        cases ha : n.nss[j]? with
+        | none => simp [ha] at h
+        | some a =>
+          simp only [ha, Option.map_some, Option.some.injEq] at h
+          subst h
+          simp only [nChild, List.filter_append, List.length_append] at hn ⊢
+          simp [Step.isChild, hn]
+
 end EPV.NodePath
